@@ -28,7 +28,8 @@ class Job:
                  enforce=None, enforce_rec=False, replace=(), loop_contracts=False, spec=(), flags=(),
                  unwindset=None, unwind=None, timeout=900, mem_gb=24, canary=True, tier='quick',
                  post=None, hooks=None, replay=None, route='loop-free', note='', expect=(), defines=(),
-                 backend='minisat', no_restore=False, bounded=None, known=None, pre_text='', post_spec=(), force_globals=(), stubs=(), gb=2):
+                 backend='minisat', no_restore=False, bounded=None, known=None, pre_text='', post_spec=(), force_globals=(), stubs=(), gb=2, drop_flags=()):
+        self.drop_flags = tuple(drop_flags)   # default cbmc flags not to use in this group (stated in the group's note)
         self.gb = gb                # expected peak memory of the cbmc process in GB (the runner keeps the sum of running groups under a budget)
         self.stubs = tuple(stubs)   # subset of `replace`: contract applied in stub form by the extractor instead of by goto-instrument
         self.name = name
@@ -254,7 +255,8 @@ def pipeline(job, work, canary=False, only_property=None, noslice=False):
         if rc != 0:
             return 'ERROR', [], 'goto-instrument failed: ' + (err or out)[-2500:], cmds, 0, info, ''
         target = gb2
-    flags = list(DEFAULT_FLAGS) + [f for f in job.flags if not (noslice and f == '--slice-formula')] + os.environ.get('VERIF_CBMC_EXTRA', '').split()
+    # (CBMC 6 switches the standard checks on by default: a dropped check has to be switched off explicitly)
+    flags = [f for f in DEFAULT_FLAGS if f not in getattr(job, 'drop_flags', ())] + ['--no-' + f[2:] for f in getattr(job, 'drop_flags', ()) if f.endswith('-check')] + [f for f in job.flags if not (noslice and f == '--slice-formula')] + os.environ.get('VERIF_CBMC_EXTRA', '').split()
     if only_property:
         flags += ['--property', only_property]
     if job.unwind is not None:
